@@ -188,6 +188,30 @@ func (ex *Exec) shimIntrinsic(st *State, fn *ssa.Function, args []Value, depth i
 			}
 			return []Value{PtrV{Obj: s.NewObj(BigV{T: t})}}
 		}), true
+	case "zzNondetBigBits":
+		return ex.runIntrinsic(st, func(s *State) []Value {
+			bT := args[0].(*Term)
+			if !bT.IsConst() {
+				unsupported("zzNondetBigBits with symbolic width")
+			}
+			bits := int(ex.constInt(bT))
+			var t *Term
+			if v, ok := ex.pinnedNext(); ok {
+				t = ex.bigConst(v)
+			} else {
+				lim := new(big.Int).Sub(pow2(bits), bigOne)
+				nlim := new(big.Int).Neg(lim)
+				if ex.IntMode {
+					t = NewIntVarRanged("Big", nlim, lim)
+					s.PC = append(s.PC, ICmpRaw("<=", IntC(nlim), t), ICmpRaw("<=", t, IntC(lim)))
+				} else {
+					t = NewVar("Big", BVSort(ex.BigW))
+					s.PC = append(s.PC, BVCmp("bvsle", BVC(nlim, ex.BigW), t), BVCmp("bvsle", t, BVC(lim, ex.BigW)))
+				}
+				s.Nondets = append(s.Nondets, NondetRec{Kind: "Big", T: t})
+			}
+			return []Value{PtrV{Obj: s.NewObj(BigV{T: t})}}
+		}), true
 	case "zzChoice":
 		nT := args[0].(*Term)
 		if !nT.IsConst() {
